@@ -201,6 +201,14 @@ def main(argv):
             for (p, suf) in ev:
                 violations.append((p, suf))
 
+    # ---- 4b. thorough tier: the independent checker coqchk re-checks the compiled property modules and everything
+    # they depend on, and reports the axioms they rely on
+    if extra is not None and not a.replay and a.tier == "thorough" and cfg.get("property_modules"):
+        ev, evi = extra.coqchk_stage(cfg, a)
+        extra_cov.update(evi or {})
+        for (p, suf) in ev:
+            violations.append((p, suf))
+
     # ---- 5. escalation: correspondence or proof broken, but no failing input yet
     if (mismatches or proof_broken) and not violations and not a.replay:
         log("escalating search: %d mismatches, proof_broken=%s" % (len(mismatches), proof_broken))
